@@ -413,11 +413,10 @@ class Env(gpp.UGenParameter, gpp.NodeParameter):
 
         '''
 
+        levels = [0, 0, peak_level, utl.list_binop(
+            operator.mul, peak_level, sustain_level), 0]
         return cls(
-            utl.list_binop(
-                operator.add,
-                [0, 0, peak_level, utl.list_binop(
-                    operator.mul, peak_level, sustain_level), 0], bias),
+            [utl.list_binop(operator.add, x, bias) for x in levels],
             [delay_time, attack_time, decay_time, release_time], curve, 3)
 
     @classmethod
@@ -444,11 +443,10 @@ class Env(gpp.UGenParameter, gpp.NodeParameter):
 
         '''
 
+        levels = [0, peak_level, utl.list_binop(
+            operator.mul, peak_level, sustain_level), 0]
         return cls(
-            utl.list_binop(
-                operator.add,
-                [0, peak_level, utl.list_binop(
-                    operator.mul, peak_level, sustain_level), 0], bias),
+            [utl.list_binop(operator.add, x, bias) for x in levels],
             [attack_time, decay_time, release_time], curve, 2)
 
     @classmethod
